@@ -349,14 +349,21 @@ func c10Child(dir, spec string) error {
 	ctx := context.Background()
 	parts := strings.Split(spec, ":")
 	switch parts[0] {
+	// the single operations report what the code under test returned ("result <class> <bytes>") and exit 0:
+	// an unexpected error is an observation, not a failure of the harness
 	case "store":
 		n, _ := strconv.Atoi(parts[1])
-		return s.Store(ctx, "x/y/k", c10Value(1, n))
+		err := s.Store(ctx, "x/y/k", c10Value(1, n))
+		fmt.Printf("result %d 0\n", c10cls(err))
+		return nil
 	case "load":
-		_, err := s.Load(ctx, "x/y/k")
-		return err
+		b, err := s.Load(ctx, "x/y/k")
+		fmt.Printf("result %d %d\n", c10cls(err), len(b))
+		return nil
 	case "delete":
-		return s.Delete(ctx, "x/y/k")
+		err := s.Delete(ctx, "x/y/k")
+		fmt.Printf("result %d 0\n", c10cls(err))
+		return nil
 	case "crashwriter": // crashwriter:<size>: Store ids 1,2,3... for ever, announcing each
 		size, _ := strconv.Atoi(parts[1])
 		for id := 1; ; id++ {
@@ -396,10 +403,10 @@ var (
 )
 
 // c10Strace runs the harness as a child under strace and projects the trace.
-func c10Strace(tmproot, spec string, prepare func(dir string)) ([]c10sev, string, error) {
+func c10Strace(tmproot, spec string, prepare func(dir string)) ([]c10sev, string, [2]int, error) {
 	dir, err := os.MkdirTemp(tmproot, "st")
 	if err != nil {
-		return nil, "", err
+		return nil, "", [2]int{-1, 0}, err
 	}
 	defer os.RemoveAll(dir)
 	store := filepath.Join(dir, "root")
@@ -412,12 +419,16 @@ func c10Strace(tmproot, spec string, prepare func(dir string)) ([]c10sev, string
 		"trace=openat,open,creat,write,pwrite64,writev,ftruncate,truncate,fsync,fdatasync,close,rename,renameat,renameat2,unlink,unlinkat,mkdir,mkdirat,read,pread64,readv,fchmod,link,linkat",
 		os.Args[0], "C10", "child", "0", store, spec)
 	out, err := cmd.CombinedOutput()
-	if err != nil {
-		return nil, "", fmt.Errorf("strace child: %v: %s", err, out)
+	result := [2]int{-1, 0} // what the operation returned: class (0 ok, 1 not-exist, 2 other error; -1 nothing reported), bytes
+	for _, ln := range strings.Split(string(out), "\n") {
+		fmt.Sscanf(ln, "result %d %d", &result[0], &result[1])
+	}
+	if err != nil && result[0] == -1 {
+		return nil, "", result, fmt.Errorf("strace child: %v: %s", err, out)
 	}
 	raw, err := os.ReadFile(trf)
 	if err != nil {
-		return nil, "", err
+		return nil, "", result, err
 	}
 	// join unfinished/resumed pairs
 	pending := map[string]string{}
@@ -564,7 +575,7 @@ func c10Strace(tmproot, spec string, prepare func(dir string)) ([]c10sev, string
 		}
 		kept = append(kept, strings.Replace(ln, store, "<root>", -1))
 	}
-	return evs, strings.Join(kept, "\n"), nil
+	return evs, strings.Join(kept, "\n"), result, nil
 }
 
 // ---------------------------------------------------------------- kind 2: concurrent histories
@@ -577,10 +588,10 @@ type c10hev struct {
 }
 
 // c10History: nW writer goroutines (+ nP writer child processes) and nR readers on one key.
-func c10History(tmproot string, r *rand.Rand, size int, nW, nR, nP, perWriter int, emptyID int) ([]c10hev, map[string]any, error) {
+func c10History(tmproot string, r *rand.Rand, size int, nW, nR, nP, perWriter int, emptyID int) ([]c10hev, map[string]any, map[int]int, error) {
 	dir, err := os.MkdirTemp(tmproot, "hist")
 	if err != nil {
-		return nil, nil, err
+		return nil, nil, nil, err
 	}
 	defer os.RemoveAll(dir)
 	s := &certmagic.FileStorage{Path: dir}
@@ -589,7 +600,7 @@ func c10History(tmproot string, r *rand.Rand, size int, nW, nR, nP, perWriter in
 	total := (nW + nP) * perWriter
 	for id := 1; id <= total+1; id++ {
 		sizes[id] = size + id%5
-		if id == emptyID {
+		if id == emptyID || (emptyID < 0 && id%(-emptyID) == 0) { // emptyID < 0: every |emptyID|-th value is empty
 			sizes[id] = 0
 		}
 	}
@@ -601,9 +612,10 @@ func c10History(tmproot string, r *rand.Rand, size int, nW, nR, nP, perWriter in
 	// initial value: id total+1
 	t0 := now()
 	if err := s.Store(ctx, "d/k", val(total+1)); err != nil {
-		return nil, nil, err
+		add(c10hev{false, t0, now(), -2}) // a failed Store is an observation
+	} else {
+		add(c10hev{false, t0, now(), total + 1})
 	}
-	add(c10hev{false, t0, now(), total + 1})
 	var wg sync.WaitGroup
 	var stop int32
 	var errs, failed []string
@@ -638,7 +650,7 @@ func c10History(tmproot string, r *rand.Rand, size int, nW, nR, nP, perWriter in
 		cmd.Stdout = &ob
 		cmd.Stderr = &ob
 		if err := cmd.Start(); err != nil {
-			return nil, nil, err
+			return nil, nil, nil, err
 		}
 		cmds = append(cmds, cmd)
 		outs = append(outs, &ob)
@@ -656,7 +668,9 @@ func c10History(tmproot string, r *rand.Rand, size int, nW, nR, nP, perWriter in
 				b, err := s.Load(ctx, "d/k")
 				c := now()
 				id := -1
-				if err == nil {
+				if err == nil && len(b) == 0 {
+					id = -3 // an empty value (of whichever Store wrote one)
+				} else if err == nil {
 					id = c10Identify(b, sizes)
 				} else if errors.Is(err, fs.ErrNotExist) {
 					id = 0
@@ -690,7 +704,7 @@ func c10History(tmproot string, r *rand.Rand, size int, nW, nR, nP, perWriter in
 	mu.Unlock()
 	rg.Wait() // every reader does one more Load after all Stores have completed
 	if len(errs) > 0 {
-		return nil, nil, fmt.Errorf("store failed: %v", errs)
+		return nil, nil, nil, fmt.Errorf("history: %v", errs)
 	}
 	// temp files must not be left behind by completed Stores
 	ents, _ := os.ReadDir(filepath.Join(dir, "d"))
@@ -707,7 +721,7 @@ func c10History(tmproot string, r *rand.Rand, size int, nW, nR, nP, perWriter in
 		hist[i].T0 -= base
 		hist[i].T1 -= base
 	}
-	return hist, info, nil
+	return hist, info, sizes, nil
 }
 
 // ---------------------------------------------------------------- kind 3: SIGKILL
@@ -859,29 +873,30 @@ func runC10(tier string, seed int64, outdir string, replay string) error {
 			n     int
 			evs   []c10sev
 			txt   string
+			out   [2]int
 			err   error
 		}
 		ch := make(chan res, 2*len(sizes)+1)
 		for _, n := range sizes {
 			n := n
 			go func() {
-				evs, txt, err := c10Strace(tmproot, fmt.Sprintf("store:%d", n), nil)
-				ch <- res{0, n, evs, txt, err}
+				evs, txt, out, err := c10Strace(tmproot, fmt.Sprintf("store:%d", n), nil)
+				ch <- res{0, n, evs, txt, out, err}
 			}()
 			go func() {
-				evs, txt, err := c10Strace(tmproot, "load", func(store string) {
+				evs, txt, out, err := c10Strace(tmproot, "load", func(store string) {
 					s := &certmagic.FileStorage{Path: store}
 					s.Store(context.Background(), "x/y/k", c10Value(1, n))
 				})
-				ch <- res{1, n, evs, txt, err}
+				ch <- res{1, n, evs, txt, out, err}
 			}()
 		}
 		go func() { // Delete of a file key: one unlink of the destination
-			evs, txt, err := c10Strace(tmproot, "delete", func(store string) {
+			evs, txt, out, err := c10Strace(tmproot, "delete", func(store string) {
 				s := &certmagic.FileStorage{Path: store}
 				s.Store(context.Background(), "x/y/k", c10Value(1, 100))
 			})
-			ch <- res{2, 100, evs, txt, err}
+			ch <- res{2, 100, evs, txt, out, err}
 		}()
 		var all []res
 		for i := 0; i < 2*len(sizes)+1; i++ {
@@ -893,14 +908,15 @@ func runC10(tier string, seed int64, outdir string, replay string) error {
 				return x.err
 			}
 			e := &emit.Enc{}
-			e.Int(1).Int(x.which).Int(x.n).Len(len(x.evs))
+			e.Int(1).Int(x.which).Int(x.n).Int(x.out[0]).Int(x.out[1]).Len(len(x.evs))
 			for _, ev := range x.evs {
 				e.Z(ev.Code).Z(ev.Class).Z(ev.Arg)
 			}
 			name := []string{"Store", "Load", "Delete"}[x.which]
 			w.Hist("strace=" + name)
 			w.Add(emit.Case{Desc: map[string]any{"kind": "strace", "class": "strace-" + name, "size": x.n}, In: map[string]any{"op": name, "size": x.n},
-				Obs: strings.Split(x.txt, "\n"), Wire: e.String(), Nontrivial: true, Key: fmt.Sprint("strace", x.which, x.n)})
+				Obs: map[string]any{"result_class": x.out[0], "result_bytes": x.out[1], "strace": strings.Split(x.txt, "\n")}, Wire: e.String(), Nontrivial: true, Key: fmt.Sprint("strace", x.which, x.n)})
+			w.Hist(fmt.Sprintf("strace_result=%s/%d", name, x.out[0]))
 		}
 	} else {
 		w.Meta.Notes = append(w.Meta.Notes, "strace not found: system-call trace comparison skipped")
@@ -908,27 +924,35 @@ func runC10(tier string, seed int64, outdir string, replay string) error {
 
 	// ---- kind 2: concurrent histories
 	type hcfg struct{ size, nW, nR, nP, per, empty int }
-	cfgs := []hcfg{{1, 2, 2, 0, 30, 7}, {100, 3, 3, 0, 40, 0}, {70000, 2, 3, 1, 15, 0}, {1 << 20, 2, 2, 0, 6, 3}}
+	cfgs := []hcfg{{1, 2, 2, 0, 30, 7}, {100, 3, 3, 0, 40, 0}, {70000, 2, 3, 1, 15, 0}, {1 << 20, 2, 2, 0, 6, 3},
+		{40, 3, 4, 0, 40, -2}} // every second value is empty
 	if tier == "thorough" {
 		cfgs = append(cfgs, hcfg{4 << 20, 3, 3, 2, 8, 0}, hcfg{1000, 6, 6, 2, 200, 11}, hcfg{300000, 4, 4, 2, 40, 0}, hcfg{16, 8, 8, 0, 300, 0})
 	}
 	for _, c := range cfgs {
-		hist, info, err := c10History(tmproot, r, c.size, c.nW, c.nR, c.nP, c.per, c.empty)
+		hist, info, hsizes, err := c10History(tmproot, r, c.size, c.nW, c.nR, c.nP, c.per, c.empty)
 		if err != nil {
 			return err
 		}
 		e := &emit.Enc{}
 		e.Int(2).Len(len(hist))
-		loads, distinct := 0, map[int]bool{}
+		loads, emptyLoads, distinct := 0, 0, map[int]bool{}
 		for _, h := range hist {
-			e.Bool(h.Load).Z(h.T0).Z(h.T1).Int(h.ID)
+			empty := (h.Load && h.ID == -3) || (!h.Load && h.ID > 0 && hsizes[h.ID] == 0)
+			e.Bool(h.Load).Z(h.T0).Z(h.T1).Int(h.ID).Bool(empty)
+			if h.Load && empty {
+				emptyLoads++
+			}
 			if h.Load {
 				loads++
 				distinct[h.ID] = true
 			}
 		}
 		w.Hist(fmt.Sprintf("history_size=%d", c.size))
-		info["loads"], info["distinct_values_seen"], info["events"] = loads, len(distinct), len(hist)
+		info["loads"], info["distinct_values_seen"], info["events"], info["loads_of_an_empty_value"] = loads, len(distinct), len(hist), emptyLoads
+		if emptyLoads > 0 {
+			w.Hist("history_with_empty_value_read")
+		}
 		info["writers"], info["readers"], info["writer_processes"] = c.nW, c.nR, c.nP
 		// the human-readable form keeps only a prefix of long histories
 		show := hist
